@@ -119,7 +119,7 @@ PLEOK(A0, A1, P, Q, r, isple) ==
      /\ ValidLapack(P, A0.m) /\ ValidLapack(Q, A0.n)
      /\ \A i \in 1 .. r : Q[i] = E0.piv[i]                 \* pivot columns = column rank profile
      /\ \A i \in r .. A0.m - 1 : \A c \in A1.r[i] : c < r  \* nothing stored outside L and U/E
-     /\ Eq(Mul(FactL(A2, r), FactU(A2, r)), ApplyPRightTrans(ApplyPLeft(A0, P), Q))
+     /\ Eq(Mul(FactL(A2, r), FactU(A2, r)), ApplyPRightTransSem(ApplyPLeft(A0, P), Q))
 
 \* ---- C04 TRSM: only the named triangle (with a unit diagonal) of T is read ------
 TrsmOK(variant, T, B0, X) ==
